@@ -593,3 +593,23 @@ Theorem ptr_chase_all_names :
     /\ sq_type s = type_ptr /\ sq_class s = class_in /\ sq_rd s = true /\ sq_cd s = false.
 Proof. exact ptr_chase_all_names_lem. Qed.
 Print Assumptions ptr_chase_all_names.
+
+(* ------------------------------------------------------------------ *)
+(* synthesis is due (round 6): the converse of synth_only_when.  Behind every
+   gate, for a name outside the excluded zones, a downstream reply that leaves
+   room (down_allows) and a lookup answered NOERROR, every A record of the A
+   answer — wherever it stands in the section, whatever its owner — that a
+   compiled prefix does not exclude is synthesised under that prefix *)
+Theorem synthesis_when_due :
+  forall cf q m mark work ar cut p o ta ip v4,
+  gates_open (compile cf) q = true -> q_type q = type_aaaa ->
+  zone_excluded (compile cf) (lower (q_name q)) = false ->
+  down_allows (compile cf) m mark work = true ->
+  m_rcode ar = 0 ->
+  In p (c_prefixes (compile cf)) -> In (RA o ta ip) (m_answer ar) -> to4 ip = Some v4 ->
+  should_exclude_a (compile cf) v4 p = false ->
+  x_path (serve cur cf q (Some (m, mark)) work (QResp ar) cut) = PSynth
+  /\ exists r t, x_reply (serve cur cf q (Some (m, mark)) work (QResp ar) cut) = Some r
+       /\ In (RAAAA o t (embed (cp_net p) v4)) (r_answer r).
+Proof. exact (synthesis_when_due_lem cur). Qed.
+Print Assumptions synthesis_when_due.
